@@ -85,6 +85,7 @@ class Decl:
     expect_reject: bool = False
     vis: str = 'pub'                               # declared visibility of the newtype ('' = private)
     note: str = ''
+    extra_attrs: str = ''                          # further attributes written between #[nutype(..)] and the struct
 
     @property
     def has_validation(self):
@@ -136,7 +137,8 @@ class Decl:
         return ', '.join(parts)
 
     def source(self):
-        return '#[nutype(%s)]\n%sstruct %s%s(%s);\n' % (self.attr_text(), (self.vis + ' ') if self.vis else '', self.name, self.generics, self.inner)
+        return '#[nutype(%s)]\n%s%sstruct %s%s(%s);\n' % (self.attr_text(), (self.extra_attrs + '\n') if self.extra_attrs else '',
+                                                        (self.vis + ' ') if self.vis else '', self.name, self.generics, self.inner)
 
     # ------------------------------------------------------------------ spec generator (Verus)
     def view_type(self):
